@@ -28,6 +28,7 @@ type VerifC13Comp struct {
 	Fields  map[string]string `json:"fields,omitempty"` // data fields -> rendered value
 	Refs    map[string]string `json:"refs,omitempty"`   // pointer/interface fields -> name of the component referred to
 	Sig     string            `json:"sig,omitempty"`    // hash of Fields and Refs
+	Skipped map[string]string `json:"skipped,omitempty"` // fields that are neither data nor references: name -> type
 }
 
 var verifC13RegexpType = reflect.TypeOf(regexp.Regexp{})
@@ -43,8 +44,8 @@ func verifC13IsData(t reflect.Type, seen map[reflect.Type]bool) bool {
 	case reflect.Map:
 		return verifC13IsData(t.Key(), seen) && verifC13IsData(t.Elem(), seen)
 	case reflect.Struct:
-		if t == verifC13RegexpType {
-			return true
+		if t == verifC13RegexpType || t.NumField() == 0 {
+			return true // struct{} as the element of a set
 		}
 		// only configuration structs are rendered field by field
 		if !strings.HasSuffix(t.PkgPath(), "/internal/conf") {
@@ -201,6 +202,7 @@ func VerifC13Snapshot(p *Core) ([]VerifC13Comp, []any) {
 		c.Ptr = uint64(v.Pointer())
 		c.Fields = map[string]string{}
 		c.Refs = map[string]string{}
+		c.Skipped = map[string]string{}
 		sv := v.Elem()
 		st := sv.Type()
 		for j := 0; j < st.NumField(); j++ {
@@ -254,6 +256,16 @@ func VerifC13Snapshot(p *Core) ([]VerifC13Comp, []any) {
 				verifC13Render(&sb, fv, 0)
 				c.Fields[sf.Name] = sb.String()
 			}
+		}
+		for j := 0; j < st.NumField(); j++ {
+			n := st.Field(j).Name
+			if _, ok := c.Fields[n]; ok {
+				continue
+			}
+			if _, ok := c.Refs[n]; ok {
+				continue
+			}
+			c.Skipped[n] = st.Field(j).Type.String()
 		}
 		c.Sig = verifC13Sig(c.Fields, c.Refs)
 		out = append(out, c)
